@@ -5,7 +5,6 @@ package main
 // violation key the witness with the smallest case index is kept.
 
 import (
-	"fmt"
 	"math/rand"
 	"os"
 	"path/filepath"
@@ -23,6 +22,8 @@ type phaseOut struct {
 	best map[string]*phaseWitness
 	tot  map[string]int64
 	bug  string // harness self-check failure
+
+	sample any // written-out first case
 }
 
 func runPhase(name string, nCases int, seed int64, workers int, dir string, run func(seed int64, dir string, st *stats) []finding) *phaseOut {
@@ -66,8 +67,12 @@ func runPhase(name string, nCases int, seed int64, workers int, dir string, run 
 				if i >= nCases || stop {
 					return
 				}
+				st.wantSample = i == 0
 				fs, bug := runGuarded(run, seeds[i], wdir, st)
 				mu.Lock()
+				if i == 0 {
+					out.sample = st.sample
+				}
 				if bug != "" && out.bug == "" {
 					out.bug = bug
 				}
@@ -110,20 +115,65 @@ func runGuarded(run func(int64, string, *stats) []finding, seed int64, dir strin
 	return run(seed, dir, st), ""
 }
 
-// report turns the witnesses of a phase into violations (deterministic order).
+// rankKey orders the violation classes of a composed phase: one defect shows as
+// several classes (a rule cut in two gives a false negative, a false positive
+// and, for other rules, a load error) and on every route built on the broken
+// code. Only the best-ranked class on the most basic route is reported; the
+// others are listed in the evidence.
+func rankKey(key string) int {
+	r := 0
+	for i, route := range []string{"src-loader-novalue", "src-loader", "src-domainset-file", "src-qname-file", "src-hosts-file", "src-redirect-file", "cfg-domain_set", "cfg-hosts", "cfg-redirect", "cfg-sequence", "cfg"} {
+		if len(key) > len(route) && key[:len(route)+1] == route+"-" {
+			r = i
+			key = key[len(route)+1:]
+			break
+		}
+	}
+	if r == 0 { // src-loader-novalue is checked first only because of the common prefix
+		r = 1
+	} else if r == 1 {
+		r = 0
+	}
+	c := 9
+	for i, class := range []string{"partial-set", "false-negative", "wrong-value", "false-positive", "load-error"} {
+		if key == class {
+			c = i
+		}
+	}
+	if r >= 6 {
+		return 100 + c*10 + r // config documents: class first, then plugin type
+	}
+	return r*10 + c // sources: most basic route first
+}
+
+// report turns the witnesses of a phase into violations.
 func (o *phaseOut) report(phase string) {
 	keys := make([]string, 0, len(o.best))
 	for k := range o.best {
 		keys = append(keys, k)
 	}
 	sortStrings(keys)
+	bestKey := ""
+	for _, k := range keys {
+		if bestKey == "" || rankKey(k) < rankKey(bestKey) {
+			bestKey = k
+		}
+	}
+	others := map[string]int{}
 	for _, k := range keys {
 		w := o.best[k]
+		if k != bestKey {
+			others[k] = w.n
+			continue
+		}
 		w.f.Case["case_index"] = w.idx
 		w.f.Case["cases_showing_this_key"] = w.n
 		for i := 0; i < w.n; i++ {
 			rep.Violation(w.f.Key, w.f.What, w.f.Case)
 		}
+	}
+	if len(others) > 0 {
+		rep.Extra(phase+"_phase_further_mismatch_classes(cases; attributed to the reported key)", others)
 	}
 	if o.bug != "" {
 		rep.Inconclusive("%s phase: harness self-check failed: %s", phase, o.bug)
@@ -137,5 +187,3 @@ func sortStrings(s []string) {
 		}
 	}
 }
-
-func fmtCount(m map[string]int64, k string) string { return fmt.Sprintf("%s=%d", k, m[k]) }
